@@ -474,11 +474,11 @@ def evaluate(prop, results, hangs, st, bound_check=False):
                                 or (r.model.get(t) or "").startswith(("SKIP", "NONFINITE"))
                                 or same_up_to_representation(r.reqs[t], r.impl.get(t) or "", r.model.get(t) or "") for t in refs)
                 findings.append(f)
-        if any(c.startswith("pycmp") or c.startswith("pyanti") for c in r.checks):
+        if any(c.startswith(("pycmp", "pyanti", "pyseg")) for c in r.checks):
             bad = extra.cmp_oracle(r)
             for i, msg in bad:
                 findings.append(Finding("O", r, "check %d (%s): fail %s" % (i, r.checks[i], msg), check=i))
-            npy = len([c for c in r.checks if c.startswith("pycmp") or c.startswith("pyanti")])
+            npy = len([c for c in r.checks if c.startswith(("pycmp", "pyanti", "pyseg"))])
             st.passed += npy - len(set(i for i, _ in bad))
             st.check_skips -= npy
         if prop == "C16" and not invalid:
@@ -552,7 +552,7 @@ def structural_pairs():
 def build_cases(prop, tier, rng):
     """returns list of (label, [Case], dbg)"""
     q = tier == "quick"
-    fams_all = ["g1", "g2", "g3", "g4", "g12", "g13", "g14", "g2", "g10", "g11", "g1", "g12", "g13", "g15", "g18", "g19", "g21", "g22", "g23", "g24"]
+    fams_all = ["g1", "g2", "g3", "g4", "g12", "g13", "g14", "g2", "g10", "g11", "g1", "g12", "g13", "g15", "g18", "g19", "g21", "g22", "g23", "g24", "g25", "g26", "g27"]
     out = []
     if prop in ("C01", "C02", "C04"):
         n = 300 if q else 7200
@@ -581,6 +581,7 @@ def build_cases(prop, tier, rng):
     elif prop == "C07":
         n = 60 if q else 1500
         pp = [("g1",) + plans.single_poly_pairs(rng, "g1") for _ in range(n // 3)]
+        pp += [("g26",) + gen.FAMILIES["g26"](rng) for _ in range(n // 6)]
         out.append(("c07", plans.plan_c07(rng, corpus_pairs(80) + pp + gen_pairs(rng, fams_all + ["g14"], n)), False))
     elif prop == "C08":
         n = 60 if q else 1500
@@ -747,6 +748,10 @@ def run_property(prop, tier, seed, replay, build=True):
     extra_info = {}
     if prop == "C12":
         fs, info = extra.c12_histories(groups, tier)
+        findings.extend(fs)
+        extra_info.update(info)
+    if prop in ("C01", "C02", "C04"):
+        fs, info = extra.large_result_children(tier)
         findings.extend(fs)
         extra_info.update(info)
     if prop == "C18":
